@@ -143,12 +143,12 @@ Theorem C06_crash_replay_converges_refuted :
     (forall r b r' t, apply r b = Some r' -> spent r' t = spent r t || mem t (txs b)) /\
     (forall a b, U a -> U b -> hash_field a = hash_field b -> a = b) /\
     Inv apply spent U g n /\ U b /\ no b <> 0 /\
-    let n' := fst (add_block apply true 100 n b) in
+    let n' := fst (add_block apply true true 100 n b) in
     hash_field (best n') = hash_field b /\
     match restart true (crash k (dur n) (units_since n n')) with
     | Some (StartOk r) =>
-        snd (add_block apply true 100 r b) = RKnown /\
-        hash_field (best (fst (add_block apply true 100 r b))) <> hash_field (best n')
+        snd (add_block apply true true 100 r b) = RKnown /\
+        hash_field (best (fst (add_block apply true true 100 r b))) <> hash_field (best n')
     | _ => False
     end.
 Proof. exact crash_replay_converges_refuted. Qed.
